@@ -38,10 +38,10 @@ class VersionInfoMessage(MessagePayload):
 
     def pack(self, buffer: bytes = None, offset: int = 0, return_buffer: bool = True) -> (bytes, int):
         values = dict(self.__dict__)
-        values['fw_version_length'] = len(self.fw_version_str)
-        values['engine_version_length'] = len(self.engine_version_str)
-        values['os_version_length'] = len(self.os_version_str)
-        values['rx_version_length'] = len(self.rx_version_str)
+        values['fw_version_length'] = len(self.fw_version_str.encode('utf8'))
+        values['engine_version_length'] = len(self.engine_version_str.encode('utf8'))
+        values['os_version_length'] = len(self.os_version_str.encode('utf8'))
+        values['rx_version_length'] = len(self.rx_version_str.encode('utf8'))
         packed_data = self.VersionInfoMessageConstruct.build(values)
         return PackedDataToBuffer(packed_data, buffer, offset, return_buffer)
 
